@@ -108,7 +108,9 @@ func checkC08(c CaseC08, x *hx.Ctx) *hx.Failure {
 	if f := cmpSplice(fmt.Sprintf("decoding %x", sec), &m, s); f != nil {
 		return f
 	}
-	_ = s.String()
+	if len(m.Descs) <= 64 { // printing is quadratic in the number of descriptors; C05 prints the long ones
+		_ = s.String()
+	}
 	if !bytes.Equal(keep, in) || !spareIntact() {
 		return hx.Failf("decode-mutates", "decoding / printing the signal modified the caller's buffer or the spare capacity behind it")
 	}
